@@ -114,7 +114,8 @@ func opRace(p []string) string {
 	r := &rng{s: seed}
 	var types []reflect.Type
 	for _, v := range []interface{}{Inner{}, WithPtr{}, Emb{}, Rec{}, Tagged{}, OmitAll{}, Nums{}, HasShape{}, MapKeyed{}, []TrNum{}, map[string]interface{}{},
-		[]interface{}{}, StrMap{}, map[KeyStruct]string{}, []byte{}, []Shape{}, HasShape{}, []Shape{}} {
+		[]interface{}{}, StrMap{}, map[KeyStruct]string{}, []byte{}, []Shape{}, HasShape{}, []Shape{}, Wide{}, Wide{}, TwoMaps{}, KeyedMap{}, Blob{}, map[TrKey]int{},
+		reflect.New(hugeT130).Elem().Interface(), map[string]Shape{}} {
 		types = append(types, reflect.TypeOf(v))
 	}
 	zas := zooAtlases()
